@@ -1,14 +1,26 @@
 """C03 — orthonormalisation preserves the tensor and yields orthonormal cores (full and partial sweeps)."""
 import itertools
 import numpy as np
-from vt.core import (R, rng_for, dn, rand_cores, lowrank_cores, tt_from, rank_vectors, snap, same_bits, meta_problem,
+from vt.core import (R, rng_for, dn, rand_cores, lowrank_cores, rank_vectors, snap, same_bits, meta_problem,
                      is_left_orth, is_right_orth)
+
+
+def tt_from(cores):
+    """fresh TT whose cores keep dtype and strides of the given arrays (every call gets its own buffers)"""
+    from scikit_tt.tensor_train import TT
+    out = []
+    for c in cores:
+        if c.flags['C_CONTIGUOUS']:
+            out.append(c.copy())
+        else:   # a genuine copy (np.ascontiguousarray would hand back the same buffer for an F-ordered array transposed back)
+            out.append(np.transpose(np.array(np.transpose(c, (3, 2, 1, 0)), order='C', copy=True), (3, 2, 1, 0)))
+    return TT(out)
 
 ID = 'C03'
 LEVEL = 'exploration'
 RULE = ('complete enumeration of order x site dims (vectors and operators) x rank vector (incl. over-parameterised '
-        'ranks larger than the neighbouring mode products) x dtype x value family (generic, rank-deficient cores, small '
-        'integers); per point ortho_left(), ortho_right(), ortho() and EVERY admissible (start_index, end_index) pair of '
+        'ranks larger than the neighbouring mode products) x per-core dtype pattern x value family (generic, rank-deficient cores, small '
+        'integers, integer dtype, a zero core, a core of magnitude 1e-170) x memory layout (contiguous, transposed views); per point ortho_left(), ortho_right(), ortho() and EVERY admissible (start_index, end_index) pair of '
         'both one-sided sweeps. Non-trivial: order >= 2 (at least one core is processed).')
 ASSUMPTIONS = ['threshold=0, max_rank=inf (truncation is C04)', 'boundary ranks 1']
 CHUNK = 32
@@ -18,7 +30,7 @@ TOL = 1e-10
 def space(tier):
     q = tier == 'quick'
     return {'orders': [1, 2, 3] if q else [1, 2, 3, 4, 5], 'dims': [1, 2] if q else [1, 2, 3], 'ranks': [1, 2, 3, 5] if q else [1, 2, 3, 5, 7],
-            'families': ['gauss', 'lowrank', 'int'], 'dtype': ['real', 'complex']}
+            'families': ['gauss', 'lowrank', 'int', 'intdtype', 'zerocore', 'tinycore'], 'dtype': ['real', 'complex', 'core0 real + rest complex', 'only core0 complex'], 'layout': ['C', 'transposed views']}
 
 
 def cases(tier):
@@ -29,27 +41,48 @@ def cases(tier):
         for rows in itertools.product(dims, repeat=d):
             for cols in itertools.product((dims if d < 3 or q else [1, 2]) if d < 5 else [1], repeat=d):
                 for r in rank_vectors(d, rk):
-                    for c in (False, True):
-                        for fam in ('gauss', 'lowrank', 'int'):
-                            if d >= 4 and fam == 'int':
+                    for c in ((False, True, 'tail', 'head') if d > 1 else (False, True)):
+                        for fam in ('gauss', 'lowrank', 'int', 'intdtype', 'zerocore', 'tinycore'):
+                            if d >= 4 and fam not in ('gauss', 'lowrank'):
                                 continue
-                            yield {'rows': list(rows), 'cols': list(cols), 'r': r, 'c': c, 'fam': fam}
+                            if fam in ('intdtype', 'zerocore', 'tinycore') and c not in (False, True):
+                                continue
+                            for lay in (('C', 'V') if fam in ('gauss', 'intdtype') else ('C',)):
+                                yield {'rows': list(rows), 'cols': list(cols), 'r': r, 'c': c, 'fam': fam, 'lay': lay}
 
 
 def build(case, rng):
-    if case['fam'] == 'lowrank':
-        return lowrank_cores(rng, case['rows'], case['cols'], case['r'], case['c'], 1)
-    return rand_cores(rng, case['rows'], case['cols'], case['r'], case['c'], case['fam'])
+    fam = case['fam']
+    if fam == 'lowrank':
+        cores = lowrank_cores(rng, case['rows'], case['cols'], case['r'], case['c'], 1)
+    elif fam == 'intdtype':          # integer *dtype* cores (complex: Gaussian-integer valued complex cores)
+        cores = rand_cores(rng, case['rows'], case['cols'], case['r'], case['c'], 'int')
+        cores = [c_ if np.iscomplexobj(c_) else c_.astype(np.int64) for c_ in cores]
+    elif fam == 'zerocore':          # one core is exactly zero (the represented tensor is zero)
+        cores = rand_cores(rng, case['rows'], case['cols'], case['r'], case['c'], 'gauss')
+        cores[len(cores) // 2] = np.zeros_like(cores[len(cores) // 2])
+    elif fam == 'tinycore':          # one core of tiny magnitude: squares underflow, the tensor itself is representable
+        cores = rand_cores(rng, case['rows'], case['cols'], case['r'], case['c'], 'gauss')
+        cores[0] = cores[0] * 1e-170
+    else:
+        cores = rand_cores(rng, case['rows'], case['cols'], case['r'], case['c'], fam)
+    if case.get('lay') == 'V':       # cores that are transposed views (strides as after TT.transpose / rank_transpose)
+        cores = [np.transpose(np.ascontiguousarray(np.transpose(c_, (3, 2, 1, 0))), (3, 2, 1, 0)) for c_ in cores]
+    return cores
 
 
 def run_case(case, seed):
     r = R(case)
     rng = rng_for(case, seed)
-    cores0 = build(case, rng)
-    d = len(cores0)
+    cores_in = build(case, rng)
+    d = len(cores_in)
     r.nontrivial = d >= 2
-    want = dn(tt_from(cores0))
+    want = dn(tt_from(cores_in))
     sc = max(1.0, np.linalg.norm(want.ravel()))
+
+    class _Cores(list):
+        pass
+    cores0 = _Cores(cores_in)
 
     def common(key, T, ret, before, touched):
         r.true(key + ':returns-self', ret is T, 'return value is not self')
